@@ -105,6 +105,10 @@ MachStep(st, m) ==
   ELSE IF st.const THEN [st EXCEPT !.ok = FALSE, !.why = "constant"]                          \* dip.py: target.nodes[n].constant
   ELSE IF m.typed /\ m.ty # st.ty THEN [st EXCEPT !.ok = FALSE, !.why = "dtype"]              \* node.dtype != self.dtype
   ELSE IF ~Fits(m.v, st.ty) THEN [st EXCEPT !.ok = FALSE, !.why = "dtype"]                    \* cast_value: dtype(text) raises
+  \* since the fix of finding unit-on-unitless-accepted: a unit on the modifier of a unit-less number node is refused
+  \* (while that finding is open the machine keeps the old behaviour: the unit is dropped further below)
+  ELSE IF "unit_on_unitless_accepted" \notin KnownDevs /\ st.ty \in {"int", "float"} /\ st.unit = "" /\ m.u # ""
+       THEN [st EXCEPT !.ok = FALSE, !.why = "dimension"]
   ELSE IF m.v = None THEN
        \* value.value = None ; value.unit = node.units_raw ; convert(): `if unit` and `self.unit != unit` -> Quantity(float(None)) raises
        IF st.ty \in {"int", "float"} /\ st.unit # "" /\ m.u # "" /\ m.u # st.unit
